@@ -600,6 +600,15 @@ func (g *gen) kvReq(verb string) *KVReq {
 	if g.rng.Intn(3) == 0 {
 		q.Flags = 7
 	}
+	if verb == "set" && g.rng.Intn(4) == 0 {
+		// revisit a locked key
+		_, es, _ := g.im.store().KVSList(nil, "", nil)
+		for _, e := range es {
+			if e.Session != "" {
+				q.Key = e.Key
+			}
+		}
+	}
 	switch verb {
 	case "get", "check-session", "check-index", "unlock", "delete-cas", "cas":
 		if ex := g.existingKeys(); len(ex) > 0 && g.rng.Intn(5) > 0 {
@@ -631,11 +640,18 @@ func (g *gen) kvReq(verb string) *KVReq {
 		}
 	case "set":
 		// a plain set stores the request's lock index and may repeat the current content
-		if cur != nil && g.rng.Intn(3) == 0 {
+		// (more often when the key is locked: the no-op rule must not look at the holder)
+		if cur != nil && (g.rng.Intn(3) == 0 || (cur.Session != "" && g.rng.Intn(2) == 0)) {
 			q.Value, q.Flags, q.Lock = hex.EncodeToString(cur.Value), cur.Flags, cur.LockIndex
 		} else if g.rng.Intn(4) == 0 {
 			q.Lock = uint64(g.rng.Intn(3))
 		}
+		if g.rng.Intn(6) == 0 {
+			q.Session = g.session() // ignored by a plain set: the holder is kept
+		}
+	}
+	if verb == "cas" && cur != nil && cur.Session != "" && g.rng.Intn(3) == 0 {
+		q.Value, q.Flags, q.Lock, q.Index = hex.EncodeToString(cur.Value), cur.Flags, cur.LockIndex, cur.ModifyIndex
 	}
 	return q
 }
